@@ -47,3 +47,36 @@ Theorem c11_order_repeated : forall max manual segs s L, 1 <= max -> max <= 6553
   Client.Order4.srun (init max manual) [] segs = Some (s, L) ->
   exists s', clean s = Ok (s', map RPublish L ++ parked s).
 Proof. exact Client.Order4.clean_in_send_order_repeated. Qed.
+
+(** ---- the v5 event loop (Client/Loop5.v): retransmit first, ported.  v5 [clean] returns exactly
+    [held5] (index order), so the carried-over prefix is a list equation.  The in-order clause
+    (c11_order_v4 / c11_order_repeated) is NOT ported: the v5 state machine has no last_puback. *)
+From Rumqtt Require Client.State5 Client.Inv5 Client.Loop5 Client.Loop5Proofs.
+
+Theorem c11_first_v5 : forall l rm tam, Client.Inv5.Inv5 (Client.Loop5.st5 l) -> Client.Loop5.connected5 l = true -> rm <> Some 0 ->
+  exists l1 l2,
+    Client.Loop5.lstep5 l Client.Loop5.Fail5 = Client.Loop5.Stepped5 l1 /\
+    Client.Loop5.lstep5 l1 (Client.Loop5.Reconnect5 true rm tam) = Client.Loop5.Stepped5 l2 /\
+    Client.Loop5.pending5 l2 = Client.Inv5.held5 (Client.Loop5.st5 l) ++ Client.Loop5.pending5 l ++ filter Client.Loop5.not_puback5 (Client.Loop5.chan5 l) /\
+    Client.Loop5.chan5 l2 = [] /\ Client.Inv5.held5 (Client.Loop5.st5 l2) = [] /\ Client.Loop5.wire5 l2 = [] /\
+    Client.Loop5.connected5 l2 = true /\ Client.Inv5.Inv5 (Client.Loop5.st5 l2).
+Proof. exact Client.Loop5Proofs.fail_then_resume5. Qed.
+
+Theorem c11_pending_before_channel_v5 : forall l r rest, Client.Loop5.pending5 l = r :: rest ->
+  Client.Loop5.next_request5 l = Some (r, Client.Loop5.mkLoop5 (Client.Loop5.st5 l) rest (Client.Loop5.chan5 l) (Client.Loop5.connected5 l) (Client.Loop5.wire5 l) (Client.Loop5.yielded5 l)) /\
+  (Client.Loop5.connected5 l = true -> Client.State5.s5_events (Client.Loop5.st5 l) = [] ->
+   Client.State5.s5_inflight (Client.Loop5.st5 l) < Client.State5.s5_max (Client.Loop5.st5 l) ->
+   Client.State5.s5_collision (Client.Loop5.st5 l) = None -> Client.Loop5.take_enabled5 l = true).
+Proof. exact Client.Loop5Proofs.pending_first5. Qed.
+
+Theorem c11_no_session_v5 : forall l rm tam, Client.Loop5.connected5 l = false -> rm <> Some 0 ->
+  exists l', Client.Loop5.lstep5 l (Client.Loop5.Reconnect5 false rm tam) = Client.Loop5.Stepped5 l' /\
+    Client.Loop5.pending5 l' = [] /\ Client.Loop5.wire5 l' = [] /\ Client.Loop5.connected5 l' = true.
+Proof. exact Client.Loop5Proofs.reconnect5_no_session. Qed.
+
+Theorem c11_f31_refuted_before_fix_v5 :
+  option_map Client.Loop5.wire5 (Client.Loop5.lrun5_orig (Client.Loop5.linit5 1 false) Client.Loop5Proofs.f31_loop5_history)
+  = Some [Client.State5.P5Publish (Client.State5.mkPub5 Q1 1 2 2 None)]
+  /\ option_map (fun l => (Client.Loop5.wire5 l, Client.Loop5.pending5 l)) (Client.Loop5.lrun5 (Client.Loop5.linit5 1 false) Client.Loop5Proofs.f31_loop5_history)
+  = Some ([Client.State5.P5PubRel 1 0], [Client.Loop5Proofs.pq1_5 2]).
+Proof. exact Client.Loop5Proofs.f31_loop5_witness. Qed.
